@@ -570,3 +570,105 @@ def no_mutable_defaults(tree, g, label):
                     isinstance(d, ast.Call) and isinstance(d.func, ast.Name) and d.func.id in ("dict", "list")):
                 problems.append(f"{getattr(fn, 'name', '<lambda>')} line {d.lineno}: mutable default argument")
     g.check(f"{label}: no mutable default arguments", not problems, {"problems": problems[:6]})
+
+
+# ---------------------------------------------------------------------------------------------
+# scoping: the part of the modules that the entry points can reach (by name, over-approximated)
+
+def reachable_trees(trees, entries):
+    """trees: {module name: ast.Module}; entries: iterable of (class name or None, function name).
+    Returns pruned copies of the trees in which the body of every function / method that the entry
+    points cannot reach is replaced by `pass`.  Reachability is by NAME and over-approximated:
+      * every identifier loaded (ast.Name) and every attribute name accessed (ast.Attribute) in a
+        reachable function reaches all functions / methods of that name in all given modules;
+      * a class whose name is mentioned makes its dunder methods reachable - and ALL its methods when it
+        extends a class from outside the repository (callbacks invoked by library code such as
+        html.parser) -, and so do its base classes and every subclass of a reachable class;
+      * module-level and class-level statements are always kept (they run at import).
+    So a function is dropped only if no reachable code mentions its name or its class."""
+    import copy
+    funcs = {}          # simple name -> [(module, class or None, node)]
+    classes = {}        # class name -> [(module, node)]
+    for m, tree in trees.items():
+        for st in tree.body:
+            if isinstance(st, ast.FunctionDef):
+                funcs.setdefault(st.name, []).append((m, None, st))
+            elif isinstance(st, ast.ClassDef):
+                classes.setdefault(st.name, []).append((m, st))
+                for s2 in st.body:
+                    if isinstance(s2, ast.FunctionDef):
+                        funcs.setdefault(s2.name, []).append((m, st.name, s2))
+    reached_fn, reached_cls, work = set(), set(), []
+
+    def reach_fn(node):
+        if id(node) not in reached_fn:
+            reached_fn.add(id(node))
+            work.append(node)
+
+    def reach_cls(name):
+        if name in reached_cls or name not in classes:
+            return
+        reached_cls.add(name)
+        for m, cnode in classes[name]:
+            # library code can call back any method of a class that extends a library class
+            external_base = any(isinstance(n, (ast.Name, ast.Attribute)) and
+                                (n.id if isinstance(n, ast.Name) else n.attr) not in classes and
+                                (n.id if isinstance(n, ast.Name) else n.attr) != "object"
+                                for b in cnode.bases for n in [b])
+            for s2 in cnode.body:
+                if isinstance(s2, ast.FunctionDef):
+                    if external_base or (s2.name.startswith("__") and s2.name.endswith("__")):
+                        reach_fn(s2)
+                else:
+                    work.append(s2)                      # class-level statements mention names too
+            for b in cnode.bases:
+                for n in ast.walk(b):
+                    if isinstance(n, ast.Name):
+                        reach_cls(n.id)
+        # subclasses (dynamic dispatch on a reachable base)
+        for cname, defs in classes.items():
+            for m, cnode in defs:
+                if any(isinstance(n, ast.Name) and n.id == name for b in cnode.bases for n in ast.walk(b)):
+                    reach_cls(cname)
+
+    for cname, fname in entries:
+        if cname is not None:
+            reach_cls(cname)
+        for m, c, node in funcs.get(fname, []):
+            if cname is None or c == cname:
+                reach_fn(node)
+    # names mentioned by module-level statements do not make anything reachable per call: those
+    # statements run once at import and are always kept in the pruned tree
+    while work:
+        node = work.pop()
+        for n in ast.walk(node):
+            name = None
+            if isinstance(n, ast.Name):
+                name = n.id
+            elif isinstance(n, ast.Attribute):
+                name = n.attr
+            if name is None:
+                continue
+            reach_cls(name)
+            for m, c, fnode in funcs.get(name, []):
+                reach_fn(fnode)
+    out, dropped = {}, []
+    for m, tree in trees.items():
+        t2 = copy.deepcopy(tree)
+        # walk original and copy in parallel to map identities
+        for orig, cp in zip(ast.walk(tree), ast.walk(t2)):
+            if isinstance(orig, ast.FunctionDef) and id(orig) not in reached_fn and _is_top_level_def(tree, orig):
+                cp.body = [ast.Pass(lineno=orig.lineno, col_offset=orig.col_offset)]
+                cp.args.defaults, cp.args.kw_defaults = cp.args.defaults, cp.args.kw_defaults
+                dropped.append(f"{m}:{orig.name}")
+        out[m] = t2
+    return out, sorted(dropped)
+
+
+def _is_top_level_def(tree, fn):
+    for st in tree.body:
+        if st is fn:
+            return True
+        if isinstance(st, ast.ClassDef) and any(s2 is fn for s2 in st.body):
+            return True
+    return False
